@@ -22,11 +22,13 @@ DefaultW(e) == IF e[1] = SRC \/ e[2] = SNK THEN 0 ELSE 1
 AWeight(ev, S) == SumOver(S, LAMBDA e : IF ev.arg[1] = <<>> THEN DefaultW(e) ELSE WOf(ev.arg[1], e))
 MaxAntichain(a, ev) == Max({AWeight(ev, S) : S \in {T \in SUBSET a.edges : IsAntichain(a, T)}})
 
-MaxReachOf(r, e) ==     \* max weight over e itself, edges reachable from its head, edges whose head reaches its tail
+Wt2(r, e) == LET S == {i \in 1..Len(r.edges) : r.edges[i] = e} IN IF S = {} THEN 0 ELSE r.ew2[CHOOSE i \in S : TRUE]
+MaxReachOfBy(r, e, alt) ==     \* max weight over e itself, edges reachable from its head, edges whose head reaches its tail
   LET a == A(r)
       fwd == {g \in a.edges : g[1] \in ReachFrom(a, e[2])}
       bwd == {g \in a.edges : e[1] \in ReachFrom(a, g[2])}
-  IN Max({Wt(r, g) : g \in {e} \cup fwd \cup bwd})
+  IN Max({IF alt THEN Wt2(r, g) ELSE Wt(r, g) : g \in {e} \cup fwd \cup bwd})
+MaxReachOf(r, e) == MaxReachOfBy(r, e, FALSE)
 
 STP(r) == UNION {PathsFrom(UG(r), s, Sinks(UG(r))) : s \in Sources(UG(r))}
 Holds(r, ev) ==
@@ -37,7 +39,7 @@ Holds(r, ev) ==
     [] ev.op = "reach_edges_rev" -> ToSet(ev.rete) = {g \in a.edges : g[2] \in Reaching(a, ev.arg[1])}
     [] ev.op = "is_scc_edge" -> ev.ret = (IF IsSCCEdge(a, <<ev.arg[1], ev.arg[2]>>) THEN 1 ELSE 0)
     [] ev.op = "maxreach" -> /\ {<<t[1], t[2]>> : t \in ToSet(ev.rete)} = a.edges
-                             /\ \A t \in ToSet(ev.rete) : t[3] = MaxReachOf(r, <<t[1], t[2]>>) * UNIT
+                             /\ \A t \in ToSet(ev.rete) : t[3] = MaxReachOfBy(r, <<t[1], t[2]>>, ev.arg = <<"alt">>) * UNIT
     [] ev.op = "antichain" -> /\ ToSet(ev.rete) \subseteq a.edges
                               /\ IsAntichain(a, ToSet(ev.rete))
                               /\ AWeight(ev, ToSet(ev.rete)) = ev.ret /\ ev.ret2 = ev.ret
